@@ -192,6 +192,11 @@ def replay(scn, ui, python, cse=True, presentation=None, force_ekf=False):
                 env["dt"] = dt
                 state = impl.State(**x)
                 control = impl.Control(**u)
+                # a point belongs to the model's domain only if EVERY output is defined there (the call returns all of them or
+                # raises): outputs with elementary functions are the harness interpreter's business (the spec marks them ByHarness)
+                if _outside_domain(st, d, env, act):
+                    res.trace.append({})
+                    continue
                 if act == "ModelEval":
                     m = impl._state_model if want_ekf else impl
                     if d.control:
@@ -219,6 +224,9 @@ def replay(scn, ui, python, cse=True, presentation=None, force_ekf=False):
                 env.update(x)
                 state = impl.State(**x)
                 sm = impl.sensor_models[key]
+                if _outside_domain(st, d, env, act):
+                    res.trace.append({})
+                    continue
                 h = sm.model(state)
                 H = impl.sensor_jacobian(key, state)
                 oh = proj_vec(h)
@@ -307,6 +315,34 @@ def replay(scn, ui, python, cse=True, presentation=None, force_ekf=False):
         before = len(res.mismatches)
         cmp_vec(res.mismatches, "xn-reread-at-end", i, proj_vec(out), st["xn"], d.update, env)
     return res
+
+
+def _outside_domain(st, d, env, act):
+    """True if some ByHarness output of this evaluation step is undefined at the point (division by zero, domain error)"""
+    def undefined(q, tree):
+        return tuple(q) == BY_HARNESS and _exp_value(q, tree, env) is None
+    if act == "ModelEval":
+        return any(undefined(q, d.update[n]) for n, q in named(st["xn"]).items())
+    if act == "JacEval":
+        Gt, Vt = named(st.get("Gt")), named(st.get("Vt"))
+        bad = any(undefined(q, Gt[r][c]) for r, row in named(st["G"]).items() for c, q in named(row).items() if Gt)
+        bad = bad or any(undefined(q, Vt[r][c]) for r, row in named(st["V"]).items() for c, q in named(row).items() if Vt and named(row))
+        # the Jacobian is evaluated together with the model itself in process_model; the trees of the updates must be defined too
+        return bad or any((not __import__("build").is_rational_tree(t)) and _try(t, env) is None for t in d.update.values())
+    if act == "SensEval":
+        Ht = named(st.get("Ht"))
+        key = st["key"]
+        bad = any(undefined(q, d.sensors[key][r]) for r, q in named(st["h"]).items())
+        return bad or any(undefined(q, Ht[r][c]) for r, row in named(st["H"]).items() for c, q in named(row).items() if Ht)
+    return False
+
+
+def _try(tree, env):
+    try:
+        v = interp(tree, env)
+        return v if (not math.isnan(v) and not math.isinf(v)) else None
+    except (ZeroDivisionError, ValueError, OverflowError):
+        return None
 
 
 def _fill_rows(M, rows):
